@@ -62,7 +62,8 @@ Next ==
         \/ \E o \in {"Bnorm", "Bbytes", "Bunc", "Bmap"} :
              \E n \in {R({0, 1, 2, 3, 15, 16, 17, 31, 32, 33, 34, 64, 100, 255, 256, 257, 300})} :
                \E bad \in {IF o = "Bnorm" /\ n > 0 /\ R({0, 1}) = 1 THEN R(1 .. (IF n > 0 THEN n ELSE 1)) ELSE 0} :
-                 Step(Op(o, 0, n, bad, R({"distinct", "allsame", "pairs", "firstlast", "cycle3", "reverse"}), <<>>), Keep)
+                 \* d > 0: structured Z coordinates whose PRODUCT is one although no element is normalised (all -1, reciprocal pairs, a compensating cell)
+                 Step(Op(o, R({0, 0, 0, 1, 2, 3}), n, bad, R({"distinct", "allsame", "pairs", "firstlast", "cycle3", "reverse"}), <<>>), Keep)
         \* variable-base MSM over pool slots
         \/ \E d \in {R(S)}, l \in {RList(OkSlots)} : Step(Op("msm", d, R({0, 1, 3, 16}), R({0, 1}), R({"mix1", "mix2", "small", "zero"}), l), [st EXCEPT ![d] = "ok"])
   \/ /\ Len(prog) = Depth
